@@ -158,15 +158,16 @@ Example C02_fsm_example :
   let refs := [3; 7; 5; 3; 5]%nat in
   let bodyA := [SAssign (ESig 0 (Sh 4 false)) (EConst 1 (Sh 1 false))] in
   let bodyB := [SAssign (ESig 0 (Sh 4 false)) (EConst 2 (Sh 2 false))] in
-  let states := [(7, bodyB); (3, bodyA); (5, [])]%nat in
+  let states := [(7%nat, bodyB); (3%nat, bodyA); (5%nat, [])] in
   let curr : env := fun i => match i with 9%nat => 1 | _ => 0 end in
-  fsm_encoding refs = [(3, 0); (7, 1); (5, 2)]%nat /\
-  exists ogs sw,
-    pop_fsm 9 (Some 5%nat) (fsm_encoding refs) [] states [(3%nat, ESig 8 (Sh 1 false))]
-      = Some (ESig 9 (Sh 2 false), 2, ogs, [sw]) /\
-    active curr sw = active_list curr bodyB /\
-    map (fun a => denote curr (snd a)) (active_list curr ogs) = [0].
-Proof. vm_compute. split; [reflexivity|]. eexists. eexists. repeat split. Qed.
+  fsm_encoding refs = [(3%nat, 0); (7%nat, 1); (5%nat, 2)] /\
+  match pop_fsm 9 (Some 5%nat) (fsm_encoding refs) [] states [(3%nat, ESig 8 (Sh 1 false))] with
+  | Some (reg, iv, ogs, [sw]) =>
+      reg = ESig 9 (Sh 2 false) /\ iv = 2 /\ active curr sw = active_list curr bodyB /\
+      map (fun a => denote curr (snd a)) (active_list curr ogs) = [0]
+  | _ => False
+  end.
+Proof. vm_compute. repeat split. Qed.
 
 (* ---------- the control-flow lowering regenerated from hdl/_dsl.py on every run (Gen/DslGen.v) equals the model ---------- *)
 From V.Proofs Require GenEqDsl.
